@@ -615,12 +615,13 @@ pub fn ctor_checks<const N: usize>(prop: &str, rep: &mut Report) {
     for m in 0..=(2 * N + 1).min(MAX_FROM_ARRAY) {
         ctors.push(Ctor::FromArray(m));
         ctors.push(Ctor::FromIter(m));
-        for h in 0..5 {
+        for h in 0..8 {
             ctors.push(Ctor::FromIterHint(m, h));
         }
     }
     for c in ctors {
         ledger::reset();
+        crate::set_case(&format!("n={}|ctor={}|recipe=|filling=none|act=ctor-only|fault=none|extra=", N, c));
         let a0 = crate::alloc::count();
         let r = std::panic::catch_unwind(|| Sut::<N>::construct(c));
         let _allocs = crate::alloc::count() - a0;
@@ -646,7 +647,8 @@ pub fn ctor_checks<const N: usize>(prop: &str, rep: &mut Report) {
                 let got: Vec<u32> = snap.iter.iter().map(|id| ledger::tag_of(*id)).collect();
                 if let Err(e) = snap.views_agree() {
                     problems.push(Problem { kind: PKind::Views, detail: e });
-                } else if got != want {
+                } else if got != want && !matches!(c, Ctor::FromIterHint(_, h) if h >= 5) {
+                    // (with an incorrect size_hint the contents are not prescribed; presentation and ownership are)
                     problems.push(Problem {
                         kind: PKind::Contents,
                         detail: format!("contents {} expected {}", model::show_tags(&got), model::show_tags(&want)),
@@ -661,6 +663,19 @@ pub fn ctor_checks<const N: usize>(prop: &str, rep: &mut Report) {
                 let mut have = snap.iter.clone();
                 live.sort();
                 have.sort();
+                // a position of the new buffer that presents something which is not a live element: the
+                // constructor counted a slot it never wrote (unoccupied storage observed, C04) or kept a destroyed one
+                if !cfg!(feature = "plain") {
+                    if let Some(id) = have.iter().find(|id| !live.contains(id)) {
+                        problems.push(Problem {
+                            kind: PKind::DeadReachable,
+                            detail: format!("the constructed buffer presents a slot (reads as id {}, {}) that holds no live element; contents read {}", id, ledger::tag_str(ledger::tag_of(*id)), model::show_tags(&got)),
+                        });
+                    }
+                }
+                if have.windows(2).any(|w| w[0] == w[1]) {
+                    problems.push(Problem { kind: PKind::Duplicate, detail: format!("the constructed buffer presents one element twice: {}", model::show_tags(&got)) });
+                }
                 if live != have && !cfg!(feature = "plain") {
                     problems.push(Problem {
                         kind: PKind::Leak,
@@ -676,6 +691,7 @@ pub fn ctor_checks<const N: usize>(prop: &str, rep: &mut Report) {
                 "C01" => matches!(p.kind, PKind::Contents | PKind::Views | PKind::PanicMismatch),
                 "C12" => matches!(p.kind, PKind::Contents | PKind::Views | PKind::PanicMismatch | PKind::BadEvent | PKind::Leak),
                 "C03" => matches!(p.kind, PKind::BadEvent | PKind::Leak | PKind::DeadReachable | PKind::Duplicate),
+                "C04" => matches!(p.kind, PKind::BadEvent | PKind::DeadReachable | PKind::Duplicate),
                 "C11" => matches!(p.kind, PKind::PanicMismatch),
                 _ => false,
             };
